@@ -227,13 +227,13 @@ type LayerOpts struct {
 // Layers draws a layer list.
 func Layers(s *core.Source, o LayerOpts) mvt.Layers {
 	var ls mvt.Layers
-	s.Repeat(0, 1, 3, "layer", func(i int) {
+	s.Repeat(0, 3, 3, "layer", func(i int) {
 		l := &mvt.Layer{
 			Name:    []string{"roads", "water", "", "poi"}[s.Intn(4, "lname")],
 			Version: uint32(1 + s.Intn(2, "version")),
 			Extent:  uint32(256) << uint(s.Intn(6, "extent")),
 		}
-		s.Repeat(0, 2, 6, "feature", func(int) {
+		s.Repeat(0, 4, 8, "feature", func(int) {
 			w := []int{3, 3, 3, 2, 2, 2, 1, 1, 0, 0}
 			if o.NilGeoms {
 				w[TNil] = 1
